@@ -276,6 +276,12 @@ def fresnel(n1, n2, theta1):
     Rv = (n2 * costheta1 - n1 * costheta2) / (n2 * costheta1 + n1 * costheta2)
     Rh = (n1 * costheta1 - n2 * costheta2) / (n1 * costheta1 + n2 * costheta2)
 
+    # Total reflection: there is no transmitted part (theta2 is NaN).
+    total = np.isnan(theta2) & ~np.isnan(theta1)
+    if np.any(total):
+        Rv = np.where(total, 1., Rv)[()]
+        Rh = np.where(total, 1., Rh)[()]
+
     return Rv, Rh
 
 
